@@ -67,7 +67,10 @@ func (e *Env) thorough() bool { return e.Tier == "thorough" }
 
 // writeCases writes a Coq case file: header imports module `mod`, `cases` has type `ty`.
 func (e *Env) writeCases(name, mod, ty string, items []string) {
-	const shard = 1500
+	e.writeCasesSharded(name, mod, ty, items, 1500)
+}
+
+func (e *Env) writeCasesSharded(name, mod, ty string, items []string, shard int) {
 	for i := 0; i*shard < len(items) || i == 0; i++ {
 		lo, hi := i*shard, (i+1)*shard
 		if hi > len(items) {
@@ -94,6 +97,13 @@ func (e *Env) writeCases(name, mod, ty string, items []string) {
 }
 
 var engines = map[string]func(*Env){}
+
+func init() {
+	// keep the database quiet: only errors, on stderr
+	if os.Getenv("LOG_LEVEL") == "" {
+		os.Setenv("LOG_LEVEL", "error")
+	}
+}
 
 func main() {
 	if len(os.Args) < 2 {
